@@ -1,5 +1,7 @@
 //! World simulator and property monitors (see DESIGN.md §3–§6).
 pub mod chain;
+pub mod chainequiv;
+pub mod deadlines;
 pub mod model;
 pub mod monitors;
 pub mod node;
